@@ -217,8 +217,8 @@ theorem parseDirectives_pairs (s : Str) :
   | cons p ps ih =>
     simp only [List.foldl_cons, List.filterMap_cons]
     cases hd : directiveOfPart p with
-    | none => simp only [hd]; exact ih m0
-    | some kv => simp only [hd, List.foldl_cons]; exact ih _
+    | none => exact ih m0
+    | some kv => simp only [List.foldl_cons]; exact ih _
 
 /-- with distinct names the special rule for duplicate no-cache never fires -/
 theorem dInsertAll_eq_insertAll (pairs : List (Str × Str)) : ∀ (m0 : Directives),
